@@ -12,8 +12,9 @@ import (
 	"github.com/openfga/openfga/internal/verifh/core"
 )
 
-const rule = "(a) preshared keys: every configuration of the key pool (1-3 keys; thorough adds prefix-related, case-related, " +
-	"duplicate, empty and non-ASCII keys) x every candidate token {each key, every proper prefix, one-char extensions (front/back), " +
+const rule = "(a) preshared keys: every configuration of the key pool (1-3 keys) and every key list of 1-2 entries over {\"\", \" \", real key} " +
+	"that has a blank entry, plus three-entry lists with the blank entry first/middle/last and only blank entries, all handed verbatim to the " +
+	"real constructor (thorough adds prefix-related, case-related, duplicate, other white-space and non-ASCII keys) x every candidate token {each key, every proper prefix, one-char extensions (front/back), " +
 	"case changes, empty, unrelated, surrounding white space, SHA-256 of the key, key concatenations} x every authorization header " +
 	"form {no metadata, metadata without authorization, Bearer/bearer/BEARER, Basic, Bearer alone, no separator, double space, " +
 	"leading space, tab separator, bare token, two values in both orders, capitalised metadata key, empty value list}; real " +
@@ -21,9 +22,16 @@ const rule = "(a) preshared keys: every configuration of the key pool (1-3 keys;
 	"configured key'. (b) OIDC: real RemoteOidcAuthenticator built by its constructor against a loopback issuer (discovery + JWKS); " +
 	"FULL product signature{JWKS key, other key, payload tampered after signing} x alg{RS256,RS384,HS256 keyed with the public-key " +
 	"PEM,none} x exp{absent,past,future} x iat{absent,past,future} x aud{configured,other,absent,list containing it} x " +
-	"iss{main,alias,other,absent} x sub{allowed,other,absent} x subjects configured{no,yes} (thorough: + kid{k1,k2,unknown,absent}, " +
-	"two-key JWKS with alg pinned, 0/1/2 aliases, 0/1/2 subjects, more claim encodings); tokens are hand-assembled (no JWT library); " +
-	"reference = conjunction of the rules of the statement evaluated on the labels. non-trivial = case in which no rule or exactly " +
+	"iss{main,alias1,other,absent,alias2,\"\",\" \"} x sub{allowed,other,absent,allowed2,\"\",\" \"} x six configurations (subjects none / one real / " +
+	"[\"\"] / [\"\",real]; aliases [real] / [\"\"] / [real,\"\"]). ALLOW-LIST dimension: EVERY subject list of 0-2 entries over {\"\", \" \", sub-ok, sub-ok2} " +
+	"(nil slice and empty slice both) under one real alias, EVERY alias list of 0-2 entries over {\"\", \" \", alias-one, alias-two} under no subjects and " +
+	"under one real subject, and blank x blank combinations (76 configurations, each built by the real constructor with the lists passed " +
+	"verbatim), each x the full iss x sub product x every combination of sig/alg/exp/iat/aud in which at most one of these is off its valid " +
+	"value; plus a blank (\"\", \" \") configured audience (thorough: + kid{k1,k2,unknown,absent}, " +
+	"two-key JWKS with alg pinned, 0/1/2 aliases, 0/1/2 subjects on both issuers with the full product, the product of all <=1-entry lists on both " +
+	"issuers, three-entry lists with blank entries in every position, more claim encodings); tokens are hand-assembled (no JWT library); " +
+	"reference = conjunction of the rules of the statement evaluated on the labels of the token and of the lists AS CONFIGURED (subjects are " +
+	"configured iff the list has >= 1 entry, blank or not; a claim names an entry iff it is present and byte-equal to it). non-trivial = case in which no rule or exactly " +
 	"one rule of the statement fails (psk: exact key in any header form, or near-miss token in a well-formed header); distinct by " +
 	"(configuration, token spec / header)."
 
@@ -33,6 +41,9 @@ func Run(o *core.Options) int {
 		"when several authorization values are present the first one is the credential (documented contract of grpc-ecosystem auth.AuthFromMD); scheme compared case-insensitively, token = everything after the first space",
 		"'signed by a key in the issuer's key set' is read as: the kid header names a key of the set and the RS256 signature over the presented header.payload verifies under that key (kid absent/unknown/naming another key of the set => reject)",
 		"'was not issued in the future': an absent iat is acceptable (the statement only excludes future iat); an absent or non-numeric exp is not",
+		"allow-lists: a list handed to the constructor with at least one entry is a configured allow-list even if every entry is the empty string (then nobody is on it: every token must be rejected, the authenticator must not fall back to 'no subjects configured'); a white-space-only entry (\" \") is an ordinary name matched byte-wise; an absent claim names nothing",
+		"the statement does not say whether an empty-string claim (iss \"\", sub \"\", aud \"\") 'names' an empty-string list entry: in exactly these cases no verdict is demanded for that rule (counted as oidc_cases_undetermined_empty_claim_vs_empty_entry); all other rules are still enforced on them",
+		"preshared keys: every configured string is a key, the empty string and white-space-only strings included (the statement compares the bearer token with the configured keys and knows no unusable key); 'Bearer ' followed by nothing carries the empty token",
 		"token times are now-of-run +-1h or further, so the wall clock does not influence any verdict; the reference decides on the labels, never on the clock",
 		"RSA keys are generated per run (2048 bit); no verdict depends on their value; issuer served on 127.0.0.1 by net/http/httptest, JWKS fetched by the real constructor",
 		"trusted: crypto/rsa, crypto/hmac, encoding/json, golang-jwt and keyfunc as vendored by the module (exercised, not modelled)",
